@@ -1,20 +1,35 @@
 (* Properties/C03.v — OSM XML decoding is faithful; the streaming scan equals whole-document
    decode.  Only statements; proofs are in Verif.Codec.*, Verif.C03.* (and the C04 round trips).
 
-   The documents: for a well-formed value v of any of the ten document types, the tree e the
-   writer model produces (encode1; its names are the OSM XML vocabulary by C04.schema_ok), with any
-   NOISE (C03/Noise.v): unknown attributes inserted anywhere in any start element, unknown elements
-   — whole subtrees of unknown names — inserted anywhere among any children, at any depth.
-   A name is unknown when the schema regenerated from /repo does not use it and it is not, in any
-   letter case, one of the scanner's object names (closedness is a vm_compute obligation).
-   Attribute ORDER is covered separately (attribute_order_irrelevant); whitespace, comments,
-   escaping, self-closing tags, lexical forms are below the tree model (DESIGN section 7) and
-   exercised by the independent writer of the harness.
-
-   PARTIAL: repeated / interleaved osmChange blocks and children reordered across names are not in
-   the noise relation; for those the per-field theorem decoder_is_fieldwise (the loops compute a
-   per-field fold of the field's own children, whatever is interleaved) and the example
-   interleaved_blocks are what is proved; the full statement for them is evaluated by Check.v. *)
+   FULL STATEMENTS (DESIGN section 5; not proved in this generality):
+     decode_faithful : forall T doc, doc_ok T doc = true ->       (* C03/Spec.v: the OSM XML vocabulary
+         in its places, any interleaving / repetition of children and blocks, unknown attributes,
+         clean unknown elements *)
+       decode gen_schema T doc = Ok (written T doc)                (* written: the value read off the
+                                                                     document by the vocabulary alone *)
+     scanner_eq_decode : forall T doc v, doc_ok T doc = true -> decode gen_schema T doc = Ok v ->
+       scan_el gen_schema doc = (objs, None) /\ every per-kind / per-block list of v is the
+       sub-sequence of objs with that enclosing block and kind.
+   PROVED (the _partial theorems below) — the DOMAIN is NOT doc_ok but the family
+       { doc | noise unknown_gen e doc,  encode1 gen_schema T v = Ok e,  wfb gen_schema T v }
+     i.e. the document the model of the library's own writer produces for a well-formed value
+     (canonical child order: one block per action, lists in struct order; its names are the OSM XML
+     vocabulary by C04.schema_ok), with any NOISE (C03/Noise.v): unknown attributes anywhere in any
+     start element, unknown element subtrees anywhere among any children, at any depth.  A name
+     is unknown when the regenerated schema does not use it anywhere and it is not, in any ASCII
+     letter case, a scanner object name (closedness: a vm_compute obligation).  For this family
+     scanner output = flatten (decoded value).  NOT covered by a theorem, only by the per-case
+     oracle of Check.v on doc_ok documents of the independent writer: repeated / interleaved
+     osmChange blocks (there scan = flatten(decode) is FALSE — the interleaved_blocks example —
+     and only the sub-sequence formulation can hold), children reordered across names, explicit
+     default attribute values, known names in foreign places; building blocks for them:
+     decoder_is_fieldwise, field_skips_foreign_children, unknown_attr_ignored, unknown_child_ignored,
+     attribute_order_irrelevant (one attribute list; not lifted to documents).
+   REFUTED on the real code (known findings, known_findings.d/C03.json): scanner = decoder fails when
+     an unknown element wraps an object element, and when an element is named like an object kind
+     up to letter case (scanner_eq_decode_refuted, scanner_case_fold_refuted).
+   Whitespace, comments, escaping, self-closing tags, lexical forms, namespaces are below the
+   tree model (DESIGN section 7) and exercised by the independent writer of the harness. *)
 From Coq Require Import List String Bool ZArith Permutation.
 From Verif Require Import Codec.Schema Codec.Value Codec.Xml Codec.Wf Codec.Scan Codec.ProofsAttr Codec.ProofsKids
      Codec.ProofsRT C03.Spec C03.Proofs C03.Noise C03.Faithful.
@@ -24,26 +39,26 @@ Open Scope string_scope.
 Open Scope list_scope.
 
 (* --- decoding yields exactly what was written, whatever unknown attributes / elements are added --- *)
-Theorem decode_faithful : forall T v doc e,
+Theorem decode_faithful_partial : forall T v doc e,
   In T ["Node"; "Way"; "Relation"; "Changeset"; "Note"; "User"; "Bounds"; "OSM"; "Change"; "Diff"] ->
   wfb gen_schema T v = true ->
   encode1 gen_schema T v = Ok e -> noise unknown_gen e doc ->
   decode gen_schema T doc = Ok v.
 Proof. exact decode_faithful_gen. Qed.
-Print Assumptions decode_faithful.
+Print Assumptions decode_faithful_partial.
 
 (* --- the streaming scanner yields, in document order, the objects of the value the
        whole-document decoder returns (flatten: the object itself; bounds, nodes, ways, relations,
        changesets, notes, users of an <osm>; the same per create / modify / delete block of an
        osmChange; per diff action the created element, the objects of old, of new, then the
        changesets) --- *)
-Theorem scanner_eq_decode : forall T v doc e,
+Theorem scanner_eq_decode_partial : forall T v doc e,
   In T ["Node"; "Way"; "Relation"; "Changeset"; "Note"; "User"; "Bounds"; "OSM"; "Change"; "Diff"] ->
   wfb gen_schema T v = true ->
   encode1 gen_schema T v = Ok e -> noise unknown_gen e doc ->
   decode gen_schema T doc = Ok v /\ scan_el gen_schema doc = (flatten T v, None).
 Proof. exact scanner_eq_decode_gen. Qed.
-Print Assumptions scanner_eq_decode.
+Print Assumptions scanner_eq_decode_partial.
 
 (* --- the generic invariance behind both, for any schema closed under the unknown predicate:
        decoder and scanner do not see the noise --- *)
@@ -99,21 +114,36 @@ Theorem field_skips_foreign_children : forall sch unm f kids x,
 Proof. exact absorb_kids_skip. Qed.
 Print Assumptions field_skips_foreign_children.
 
-(* Boundary of the domain: an unknown element wrapping a known object element is stepped into
-   by the token-level scanner but skipped as a whole by the document decoder, so the two
-   readers differ there; the noise relation (all_unknown subtrees) and doc_ok exclude it. *)
-Theorem scanner_descends_unknown_example :
+(* REFUTED (known finding scanner-descends-unknown-wrapper): an unknown element wrapping a known
+   object element is stepped into by the token-level scanner but skipped as a whole by the
+   document decoder: the scanner yields an object the decoded value does not contain. *)
+Theorem scanner_eq_decode_refuted :
   exists doc, doc_ok "OSM" doc = false /\
               fst (scan_el gen_schema doc) <> [] /\
               decode gen_schema "OSM" doc = Ok (zero gen_schema FUEL (TNamed "OSM")).
 Proof. exact scanner_descends_unknown. Qed.
-Print Assumptions scanner_descends_unknown_example.
+Print Assumptions scanner_eq_decode_refuted.
+
+(* REFUTED (known finding scanner-case-folds-object-name): <Node> is ignored by the decoder and
+   stops the scanner with an error; <Bounds> is ignored by the decoder and yielded by the scanner *)
+Theorem scanner_case_fold_refuted :
+  (match decode gen_schema "OSM" case_variant_doc with Ok _ => true | Err _ => false end = true
+   /\ scan_el gen_schema case_variant_doc = ([], Some EName))
+  /\ (decode gen_schema "OSM" case_bounds_doc = Ok (zero gen_schema FUEL (TNamed "OSM"))
+      /\ map fst (fst (scan_el gen_schema case_bounds_doc)) = ["Bounds"]).
+Proof. exact scanner_case_fold. Qed.
+Print Assumptions scanner_case_fold_refuted.
 
 (* non-vacuity / instances *)
 Example interleaved_blocks :
   doc_ok "Change" interleaved_doc = true /\
   node_ids (fst (scan_el gen_schema interleaved_doc)) = [VInt 1; VInt 2; VInt 3] /\
-  match decode gen_schema "Change" interleaved_doc with Ok _ => true | Err _ => false end = true.
+  (* both create blocks accumulate (nodes 1, 3), modify holds node 2: decode groups by block while
+     the scanner keeps document order 1, 2, 3 — so only the sub-sequence formulation holds here *)
+  match decode gen_schema "Change" interleaved_doc with
+  | Ok v => (block_node_ids v "Create", block_node_ids v "Modify", block_node_ids v "Delete")
+  | Err _ => ([], [], [])
+  end = ([VInt 1; VInt 3], [VInt 2], []).
 Proof. exact interleaved_blocks_example. Qed.
 
 Example noisy_document :
